@@ -18,6 +18,8 @@
 #include <rtosc/pretty-format.h>
 #include <rtosc/arg-val-cmp.h>
 #include <cinttypes>
+#include <ctime>
+#include <cstdlib>
 #include <deque>
 
 static const size_t PBUF = 1 << 17;
@@ -106,6 +108,19 @@ struct Scanned {
 static void count_and_scan(const char *text, bool msg, Scanned &s)
 {
     s.count = msg ? rtosc_count_printed_arg_vals_of_msg(text) : rtosc_count_printed_arg_vals(text);
+    if(msg && s.count == 0) {
+        // a message without arguments: the address is scanned, no value is written
+        s.av.assign(8, rtosc_arg_val_t());
+        for(auto &x : s.av) { memset(&x, 0, sizeof(x)); x.type = SENT; }
+        s.strbuf.assign(strlen(text) + 64, 0);
+        std::vector<char> adr(strlen(text) + 2, 0);
+        s.rd = (long)rtosc_scan_message(text, adr.data(), adr.size(), s.av.data(), 0, s.strbuf.data(), s.strbuf.size());
+        s.addr = adr.data();
+        long w = 0;
+        for(size_t i = 0; i < s.av.size(); ++i) if(s.av[i].type != SENT) w = (long)i + 1;
+        s.nwritten = w;
+        return;
+    }
     if(s.count <= 0 || s.count > 100000) return;
     size_t n = (size_t)s.count;
     s.av.assign(n + 8, rtosc_arg_val_t());
@@ -124,10 +139,25 @@ static void count_and_scan(const char *text, bool msg, Scanned &s)
 
 int main()
 {
+    // the calendar functions of libc are compared with the model's for TZ=UTC
+    setenv("TZ", "UTC", 1);
+    tzset();
     std::string line;
     std::vector<char> pbuf(PBUF);
     while(std::getline(std::cin, line)) {
         auto f = split(line, ' ');
+        if(f.size() >= 2 && f[0] == "cal") {
+            // localtime() and mktime() as the library calls them (rtosc-time.c)
+            time_t t = (time_t)strtoll(f[1].c_str(), 0, 10);
+            struct tm m = *localtime(&t);
+            struct tm m2 = m;
+            m2.tm_isdst = -1;
+            long long back = (long long)mktime(&m2);
+            printf("D=%d-%d-%d-%d-%d-%d S=%lld\n", m.tm_year + 1900, m.tm_mon + 1, m.tm_mday,
+                   m.tm_hour, m.tm_min, m.tm_sec, back);
+            fflush(stdout);
+            continue;
+        }
         if(f.size() >= 6 && (f[0] == "pp" || f[0] == "pm" || f[0] == "xp" || f[0] == "xm")) {
             bool msg = f[0][1] == 'm';
             rtosc_print_options o;
